@@ -34,6 +34,21 @@ Theorem c23_ended_txn_commit_raises : forall k s, k < length (txns s) -> active 
 Proof. exact ended_commit_raises. Qed.
 Print Assumptions c23_ended_txn_commit_raises.
 
+(* the autobegin invariant (fix ba42825): after every operation of every history - raising `begin`
+   listeners and failing DBAPI rollbacks included - __in_begin is False, so _autobegin is never
+   left disabled *)
+Theorem c23_in_begin_reset : forall ops d,
+  Forall (fun rs => c_in_begin (snd rs) = false) (trace ops (init d)).
+Proof. intros ops d. exact (in_begin_reset ops (init d) eq_refl). Qed.
+Print Assumptions c23_in_begin_reset.
+
+(* after any history, a statement that executes does so inside an active root transaction
+   (never silently outside one, where commit() would be a no-op) *)
+Theorem c23_statement_runs_in_transaction : forall ops d v s',
+  step (OIns v) (run ops (init d)) = Some (Ok, s') -> in_transaction s' = true.
+Proof. exact statement_in_transaction. Qed.
+Print Assumptions c23_statement_runs_in_transaction.
+
 (* ---------- guarded histories: full nested-transaction semantics ---------- *)
 
 (* after every operation - so after each outer commit - other connections (and the connection
@@ -145,6 +160,23 @@ Example c23_ex_witnesses_outside_guard :
   guard_from witness_a (spec_init []) = false /\ guard_from witness_b (spec_init []) = false /\
   guard_from witness_c (spec_init []) = false.
 Proof. exact witnesses_unguarded. Qed.
+(* faults inside the guard: a `begin` listener that raises once - the first statement raises, the next
+   one autobegins normally and commit() publishes it; a DBAPI rollback that reports an error while a
+   savepoint is open - the transaction and its savepoint objects are ended (fix fff6083) *)
+Definition c23_fault_begin : list op := [FBegin 1; OIns 1; OIns 2; OCommit].
+Definition c23_fault_rollback : list op := [ONested; OIns 1; FRollback true; ORollback; OIns 2; TRollback 1; OCommit].
+Example c23_ex_fault_begin :
+  guard_from c23_fault_begin (spec_init []) = true /\
+  map (fun rs => fst rs) (trace c23_fault_begin (init db_empty)) =
+    [Some Ok; Some (Raise ListenerError); Some Ok; Some Ok] /\
+  visible 0%N (s_db (run c23_fault_begin (init db_empty))) = [[2]]%Z.
+Proof. vm_compute. auto. Qed.
+Example c23_ex_fault_rollback :
+  guard_from c23_fault_rollback (spec_init []) = true /\
+  map flags_of (trace c23_fault_rollback (init db_empty)) =
+    [(true, true); (true, true); (true, true); (false, false); (true, false); (true, false); (false, false)] /\
+  visible 0%N (s_db (run c23_fault_rollback (init db_empty))) = [[2]]%Z.
+Proof. vm_compute. auto. Qed.
 (* an inactive handle exists in a reachable state (hypotheses of the unguarded theorems) *)
 Example c23_ex_inactive_handle :
   let s := run [OBegin; OCommit] (init db_empty) in 0 < length (txns s) /\ active 0 s = false.
